@@ -521,6 +521,11 @@ func genWorld(r *Rng, cfg *genCfg) *World {
 		a := &NetPol{NS: ns, Name: "cpa", Types: []string{"I"}, Ingress: []NPRule{{Ports: []NPPort{all("TCP"), all("UDP"), {Proto: "SCTP", Kind: "num", Num: 1, End: &k}}}}}
 		b := &NetPol{NS: ns, Name: "cpb", Types: []string{"I"}, Ingress: []NPRule{{Ports: []NPPort{{Proto: "SCTP", Kind: "num", Num: k + 1, End: &e}}}}}
 		w.Objs = append(w.Objs, Obj{Kind: "np", Np: a}, Obj{Kind: "np", Np: b})
+		if r.P(50) {
+			// a third one adds a port by name (already inside the union when it resolves); visited before or after the others
+			c := &NetPol{NS: ns, Name: Pick(r, []string{"aaa", "zzz"}), Types: []string{"I"}, Ingress: []NPRule{{Ports: []NPPort{{Proto: Pick(r, protoPool), Kind: "name", Name: Pick(r, portNames)}}}}}
+			w.Objs = append(w.Objs, Obj{Kind: "np", Np: c})
+		}
 	}
 	nNP := r.Intn(cfg.maxNP + 1)
 	for i := 0; i < nNP; i++ {
